@@ -198,6 +198,12 @@ struct Plan {
     spare_blackhole: bool,
     /// Oracle id prefix: "c15" or, when run as the tablet part of C12, "c12t".
     prefix: &'static str,
+    /// Datacenters (node i lives in dc{1 + i % dcs}); with 2, the load-balancing policy
+    /// prefers one of them (`prefer_dc`, 0-based).
+    dcs: usize,
+    prefer_dc: usize,
+    /// Whether the policy may use nodes of the other datacenter at all.
+    dc_failover: bool,
 }
 
 /// Whether the spare node (index plan.nodes) is a ring member by now.
@@ -255,18 +261,26 @@ pub fn run(req: &RunRequest) -> Value {
             spare_event: tape::chance("c15:spare_event", 1, 2),
             spare_blackhole: tape::chance("c15:spare_blackhole", 1, 2),
             prefix: if req_is_c12t { "c12t" } else { "c15" },
+            dcs: 1,
+            prefer_dc: 0,
+            dc_failover: true,
         };
         let mut plan = plan;
+        if plan.nodes >= 2 && tape::chance("c15:two_dcs", 1, 3) {
+            plan.dcs = 2;
+            plan.prefer_dc = tape::choose("c15:prefer_dc", 2) as usize;
+            plan.dc_failover = tape::chance("c15:dc_failover", 1, 2);
+        }
         if tape::chance("c15:spare", 1, 3) {
             plan.spare_join_at = Some(tape::choose("c15:spare_at", plan.requests as u64) as usize);
         }
         let mut cluster = Cluster::new("c15");
         for i in 0..plan.nodes {
-            let n = cluster.add_node("dc1", "r1", plan.shards, vec![(i as i64) * 1000 - 2500]);
+            let n = cluster.add_node(&format!("dc{}", 1 + i % plan.dcs), "r1", plan.shards, vec![(i as i64) * 1000 - 2500]);
             cluster.nodes[n].msb_ignore = 12;
         }
         if plan.spare_join_at.is_some() {
-            let n = cluster.add_node("dc1", "r1", plan.shards, vec![(plan.nodes as i64) * 1000 - 2500]);
+            let n = cluster.add_node(&format!("dc{}", 1 + plan.nodes % plan.dcs), "r1", plan.shards, vec![(plan.nodes as i64) * 1000 - 2500]);
             cluster.nodes[n].msb_ignore = 12;
             cluster.nodes[n].in_ring = false;
             cluster.nodes[n].up = false;
@@ -274,7 +288,7 @@ pub fn run(req: &RunRequest) -> Value {
         client::standard_catalog(&mut cluster, Strategy::Simple(1), false);
         cluster.keyspaces.push(KeyspaceDef {
             name: "kst".into(),
-            strategy: Strategy::Nts(vec![("dc1".into(), plan.rf)]),
+            strategy: Strategy::Nts((0..plan.dcs).map(|d| (format!("dc{}", 1 + d), plan.rf)).collect()),
             tablets: true,
             tables: vec![TableDef { name: "tt".into(), partitioner: None }],
         });
@@ -323,7 +337,15 @@ async fn main(plan: Plan) -> Outcome {
     let profile = ExecutionProfile::builder()
         .request_timeout(None)
         .retry_policy(Arc::new(FallthroughRetryPolicy))
-        .load_balancing_policy(DefaultPolicy::builder().token_aware(true).build())
+        .load_balancing_policy(if plan.dcs == 2 {
+            DefaultPolicy::builder()
+                .token_aware(true)
+                .prefer_datacenter(format!("dc{}", 1 + plan.prefer_dc))
+                .permit_dc_failover(plan.dc_failover)
+                .build()
+        } else {
+            DefaultPolicy::builder().token_aware(true).build()
+        })
         .build();
     let cfg = SessionCfg {
         contact_nodes: vec![0],
@@ -352,6 +374,7 @@ async fn main(plan: Plan) -> Outcome {
         .collect();
     migrate_at.sort();
     let mut routed_checked = 0u64;
+    let mut dc_checked = 0u64;
     let mut unsynced = 0u64;
     let mut spare_known_to_client = false;
     let mut worker_busy_until = 0u64;
@@ -509,6 +532,28 @@ async fn main(plan: Plan) -> Outcome {
         if let (true, Some((node, shard, token, Some(known)))) = (in_sync, first) {
             routed_checked += 1;
             let hit = known.replicas.iter().find(|(n, _)| *n == node);
+            // Without datacenter failover the policy permits the preferred datacenter's
+            // nodes only: a tablet without a replica there says nothing about the target.
+            if plan.dcs == 2 && !plan.dc_failover && !known.replicas.iter().any(|(n, _)| n % plan.dcs == plan.prefer_dc) {
+                continue;
+            }
+            // With a preferred datacenter: a replica there, if the tablet has one (judged in
+            // runs without the spare node, so that every replica is reachable).
+            if plan.dcs == 2 && plan.spare_join_at.is_none() && hit.is_some() {
+                let local: Vec<usize> = known.replicas.iter().map(|(n, _)| *n).filter(|n| n % plan.dcs == plan.prefer_dc).collect();
+                if !local.is_empty() {
+                    dc_checked += 1;
+                    if !local.contains(&node) {
+                        out.violation(
+                            &oid("routing_not_in_preferred_dc"),
+                            format!(
+                                "request {m} (token {token}) went to node {node} in dc{} although the learnt tablet ({}, {}] has replicas {:?} in the preferred dc{}",
+                                1 + node % plan.dcs, known.first_excl, known.last, local, 1 + plan.prefer_dc
+                            ),
+                        );
+                    }
+                }
+            }
             match hit {
                 None => out.violation(
                     &oid("routing_ignores_tablet"),
@@ -635,6 +680,7 @@ async fn main(plan: Plan) -> Outcome {
     out.nontrivial = payloads > 0;
     out.count("tablet_payloads_sent", payloads);
     out.count("routing_checked", routed_checked);
+    out.count("routing_checked_against_preferred_dc", dc_checked);
     out.count("routing_not_judged_state_not_in_sync", unsynced);
     out.count("lookups_checked", lookups);
     out.sample = json!({
